@@ -388,6 +388,15 @@ func specs(c *runner.Ctx) []spec {
 				rec: strRec(func(s string) bool { return strings.Contains(s, "a/b") && lang.In(s, lang.Options("'a/b'/'xa/bx'/'2024/01/02'")) }),
 				gen: genList("a/b", "xa/bx", "2024/01/02", "a", "xa/b", "'a/b'")})
 	}
+	// quoted options that end in a backslash (Windows paths): the backslash is an ordinary character, the quote closes
+	{
+		opts := []string{`C:\`, `D:\`, "x"}
+		vals := genList(`C:\`, `D:\`, "x", "C:", `C:\'/'D:\`, `\`, "D:", `C:\x`)
+		out = append(out,
+			spec{space: "in(quoted options ending in a backslash)", rule: `in=('C:\'/'D:\'/x)`, rec: strRec(func(s string) bool { return lang.In(s, opts) }), gen: vals},
+			spec{space: "include(quoted option ending in a backslash)", rule: `include=('\'/ab)`, rec: strRec(func(s string) bool { return strings.Contains(s, `\`) || strings.Contains(s, "ab") }),
+				gen: genList("xaby", `a\b`, "x", `\`, "ab", "a", `'\'`)})
+	}
 	// re
 	reValAlpha := []string{"a", "b", "x", "y", "z", "1", ",", "'", "|", "\\", "d"}
 	for _, pat := range []string{`[a-z]+`, `^\d{2}$`, `a|b`, `a,b`, `^it\'s$`, `^(x|y),z$`, `\\d+`, `^[ab]{2},?$`, `^1|x$`} {
